@@ -191,7 +191,7 @@ func makeIntrinsics() map[string]intrinsicFn {
 	}
 	m[apiName("Param")] = func(fr *frame, a []value) value {
 		name := argStr(a[0], "param name")
-		if v, ok := fr.p.eng.cfg.Params[name]; ok {
+		if v, ok := fr.p.cfg.Params[name]; ok {
 			return fr.p.intConst(int64(v))
 		}
 		return a[1]
